@@ -90,7 +90,10 @@ pub fn partner(r: &mut Rng, a: i128) -> i128 {
         4 => NPC - 1,
         _ => r.below(NPC as u64) as i128,
     };
-    match r.below(11) {
+    match r.below(12) {
+        // the sum (or difference) is the NEGATION of the first operand: `Duration ==` holds between d and -d
+        // within a century of zero, so an "unchanged?" test written with `==` misfires there
+        11 => (if r.chance(1, 2) { -2 * a } else { 2 * a }) + if r.chance(1, 2) { 0 } else { sgn * d.min(2) },
         10 => {
             // word-size aliases: equal to +/-a (or nearly) once truncated to 64, 63 or 32 bits
             let k = *r.pick(&[-3i128, -2, -1, 1, 2, 3]);
